@@ -6,10 +6,14 @@
 
 mod core;
 mod enc;
+mod guard;
 mod props;
 mod t31;
 
 use crate::core::*;
+
+#[global_allocator]
+static GLOBAL: guard::CountingAlloc = guard::CountingAlloc;
 use serde_json::Value;
 
 type RunFn = fn(&'static Ctx) -> (&'static str, Value, Vec<&'static str>);
@@ -17,6 +21,10 @@ type ReplayFn = fn(&'static Ctx, &Value);
 
 fn table() -> Vec<(&'static str, RunFn, ReplayFn)> {
     vec![
+        ("C14", props::c14::run as RunFn, props::c14::replay as ReplayFn),
+        ("C06", props::c06::run as RunFn, props::c06::replay as ReplayFn),
+        ("C04", props::c04::run as RunFn, props::c04::replay as ReplayFn),
+        ("C05", props::c05::run as RunFn, props::c05::replay as ReplayFn),
         ("C01", props::c01::run as RunFn, props::c01::replay as ReplayFn),
         ("C03", props::c03::run as RunFn, props::c03::replay as ReplayFn),
         ("C07", props::c07::run as RunFn, props::c07::replay as ReplayFn),
